@@ -74,6 +74,18 @@ def gen(R, n):
     return W, tag
 
 
+SCALES = [("2^-40", Fraction(1, 2 ** 40), True), ("2^-70", Fraction(1, 2 ** 70), True), ("2^40", Fraction(2 ** 40), True),
+          ("1e-12", Fraction(1e-12), False), ("1e-15", Fraction(1e-15), False), ("1e-6", Fraction(1e-6), False), ("1e9", Fraction(10 ** 9), False)]
+
+
+def rescale(R, W):
+    """the property is about every non-negative matrix, whatever its magnitude: the same matrix in other units (a power of two
+    keeps float arithmetic exact, a power of ten does not)"""
+    name, f, keeps_exact = R.rng.choice(SCALES)
+    W2 = [[None if v is None else float(Fraction(v) * f) for v in row] for row in W]
+    return W2, name, keeps_exact
+
+
 def exact_data(W):
     return all(v is None or Fraction(v).denominator in (1, 2, 4, 8, 16, 32, 64) for row in W for v in row)
 
@@ -114,7 +126,10 @@ def judge(R, case, res, cert_ans):
                     oracle="not a permutation of the items / uses a NaN pair")
         return
     val = sum(F[i][cols[i]] for i in range(n))
-    tol = Fraction(0) if exact_data(W) else Fraction(1, 10 ** 9) * max(1, abs(opt))
+    # relative to the magnitude of the data (an absolute floor would accept anything on a matrix of tiny utilities)
+    mag = max([abs(x) for row in F for x in row if x is not None] + [Fraction(0)])
+    exact = case["exact"] if case.get("exact") is not None else exact_data(W)
+    tol = Fraction(0) if exact else Fraction(1, 10 ** 9) * mag
     if opt - val > tol:
         R.violation("property_violation", "total utility equals the maximum over all acceptable assignments", ENTRY, {"W": W, "pre": case.get("pre")},
                     impl_output=res["cols"], oracle={"impl_value": fr(val), "better_assignment": [s + fixer for s in sigma], "its_value": fr(opt)})
@@ -169,11 +184,11 @@ def corpus():
 def run(R):
     R.rule = ("square valuation matrices, n<=7 quick / <=12 thorough: integers with zeros, generic floats, dyadic values, step-shaped tie-heavy "
               "floats (lambda-TSF levels with the 1e-5 floor and shared favourites), few distinct values incl. exact zeros; NaN density 0/.15/.4 "
-              "incl. infeasible patterns; each call supervised by a deadline (5 s quick / 20 s thorough). Every output is certified: exact "
+              "incl. infeasible patterns; 20% of the matrices rescaled to other magnitudes (2^-70 .. 1e9); each call supervised by a deadline (5 s quick / 20 s thorough). Every output is certified: exact "
               "Hungarian potentials from the harness + Lean assignCertOk, or a Hall violator + Lean hallCertOk when the code raises. "
               "Non-trivial = n>=3 with NaN or repeated values.")
     R.assumptions = ["scipy's solver is not modelled: its output is certified per call (LP weak duality / Hall)",
-                     "tolerance 0 on integer/dyadic data, 1e-9*max(1,|OPT|) on generic floats (absorbs the solver's own rounding)"]
+                     "tolerance 0 on integer/dyadic data (also when rescaled by a power of two), 1e-9 * (largest utility) on generic floats (absorbs the solver's own rounding; relative, so tiny magnitudes are judged as strictly as ordinary ones)"]
     cases = []
     for c in corpus():
         cases.append({"W": c["W"], "n": len(c["W"]), "zero": True, "tag": "corpus"})
@@ -182,7 +197,13 @@ def run(R):
     for t in range(cnt):
         n = R.rng.randint(1, nmax)
         W, tag = gen(R, n)
-        c = {"W": W, "n": n, "zero": R.rng.random() < 0.5, "tag": tag}
+        exact = exact_data(W)
+        if R.rng.random() < 0.2:
+            W, sname, keeps = rescale(R, W)
+            tag = tag + "*scaled"
+            exact = exact and keeps
+            R.count("scale=" + sname)
+        c = {"W": W, "n": n, "zero": R.rng.random() < 0.5, "tag": tag, "exact": exact}
         if R.rng.random() < 0.25:
             c["pre"] = gen(R, n)[0]
         cases.append(c)
